@@ -367,7 +367,7 @@ Proof.
   assert (H1: p mod 68719476736 = (p / 134217728) mod 512 * 134217728 + p mod 134217728) by lia.
   assert (H2: p mod 134217728 = (p / 262144) mod 512 * 262144 + p mod 262144) by lia.
   assert (H3: p mod 262144 = (p / 512) mod 512 * 512 + p mod 512) by lia.
-  rewrite N.div_1_r. lia.
+  rewrite N.div_1_r, H1, H2, H3. ring.
 Qed.
 
 Lemma ixs_mod36 p q : ixs p = ixs q -> p mod 2 ^ 36 = q mod 2 ^ 36.
@@ -596,9 +596,14 @@ Proof.
   destruct j as [|j].
   - rewrite N.mul_0_r, N.add_0_r in *. rewrite Htr.
     rewrite mresv_out; [apply aupd_same|].
-    intros j' Hj' E. replace (a + 4096 + 4096 * N.of_nat j') with (a + 4096 * N.of_nat (S j')) in E by lia.
-    rewrite <- (N.add_0_r a) in E at 2. replace 0 with (4096 * 0) in E at 2 by lia.
-    apply resv_pages_distinct in E; try lia; unfold vmm_tempMappingAddr, two64 in *; change (2 ^ 36) with 68719476736 in *; lia.
+    intros j' Hj' E. replace (a + 4096 + 4096 * N.of_nat j') with (a + 4096 * N.of_nat (S j')) in E by (clear; lia).
+    assert (Hb1: a + 4096 * N.of_nat (S j') < two64) by (clear -Hhi Hj'; unfold vmm_tempMappingAddr, two64 in *; lia).
+    assert (Hb2: a + 4096 * 0 < two64) by (clear -Hhi; unfold vmm_tempMappingAddr, two64 in *; lia).
+    assert (Hb3: N.of_nat (S j') < 2 ^ 36) by (clear -H36 Hj'; change (2 ^ 36) with 68719476736 in *; lia).
+    assert (Hb4: 0 < 2 ^ 36) by reflexivity.
+    assert (E': ixs (N.shiftr (a + 4096 * N.of_nat (S j')) 12) = ixs (N.shiftr (a + 4096 * 0) 12)).
+    { rewrite N.mul_0_r, N.add_0_r. exact E. }
+    pose proof (resv_pages_distinct a _ _ Ha Hb1 Hb2 E' Hb3 Hb4) as Hd. clear -Hd. lia.
   - specialize (Hall 0%nat ltac:(lia)) as H0. rewrite N.mul_0_r, N.add_0_r in H0.
     destruct (tr (N.shiftr a 12)) as [[f0 fl0]|]; [|congruence].
     replace (a + 4096 * N.of_nat (S j)) with (a + 4096 + 4096 * N.of_nat j) in * by lia.
